@@ -45,6 +45,7 @@ type FuncContract struct {
 	Params     []string // optional explicit parameter names (extern/iface)
 	Where      string
 	Lets       [][2]string // name, expr: ghost abbreviations usable in clauses (evaluated at entry)
+	GhostMaps  []string    // assumed contracts only: existentially chosen Int->Int maps, fresh at every call (e.g. the permutation of a sort)
 	Uses       map[string]map[string]bool // callee short name -> the only postconditions of it that are assumed at its call sites here
 	CutLoops   bool        // after a loop only the precondition and the loop invariants are known (path history is dropped)
 	NoSafety   string      // reason: safety (no-panic) obligations are not generated for this function
@@ -75,7 +76,7 @@ type ContractDB struct {
 }
 
 var clauseKW = map[string]bool{"props": true, "requires": true, "ensures": true, "modifies": true, "loop": true, "emits": true,
-	"pure": true, "noeffect": true, "trusted": true, "params": true, "let": true, "internal": true, "nosafety": true, "cutloops": true, "uses": true}
+	"pure": true, "noeffect": true, "trusted": true, "params": true, "let": true, "ghostmap": true, "internal": true, "nosafety": true, "cutloops": true, "uses": true}
 
 var topKW = map[string]bool{"func": true, "iface": true, "extern": true, "pred": true, "spec": true, "axiom": true, "lemma": true, "event": true}
 
@@ -270,6 +271,11 @@ func (db *ContractDB) parseFile(file, pkgPath string) error {
 					}
 				case "params":
 					fc.Params = strings.Fields(strings.ReplaceAll(crest, ",", " "))
+				case "ghostmap":
+					if fc.Kind == "func" && fc.Trusted == "" {
+						return fmt.Errorf("%s: ghostmap is only allowed in assumed contracts (extern, iface, trusted)", cwhere)
+					}
+					fc.GhostMaps = append(fc.GhostMaps, strings.Fields(crest)...)
 				case "let":
 					i := strings.Index(crest, "=")
 					if i < 0 {
